@@ -12,24 +12,31 @@ import (
 )
 
 // Value is one of:
-//   BV, Bool, Float, Str            scalars (possibly symbolic)
-//   *Value                          pointer (nil pointer = (*Value)(nil))
-//   Struct, Array                   aggregates with value semantics
-//   []Value  (as Slice)             slice
-//   *Map, *Chan                     reference types
-//   *ssa.Function, *Closure, *ssa.Builtin   funcs
-//   Iface                           interface value
-//   Tuple                           multi-value
-//   TimeV                           model of time.Time
-//   *Obj                            opaque model object
-//   UnsafePtr                       unsafe.Pointer
-//   nil                             nil func / zero placeholder
+//
+//	BV, Bool, Float, Str            scalars (possibly symbolic)
+//	*Value                          pointer (nil pointer = (*Value)(nil))
+//	Struct, Array                   aggregates with value semantics
+//	[]Value  (as Slice)             slice
+//	*Map, *Chan                     reference types
+//	*ssa.Function, *Closure, *ssa.Builtin   funcs
+//	Iface                           interface value
+//	Tuple                           multi-value
+//	TimeV                           model of time.Time
+//	*Obj                            opaque model object
+//	UnsafePtr                       unsafe.Pointer
+//	nil                             nil func / zero placeholder
 type Value interface{}
 
 type BV struct {
 	W uint8
 	C uint64
 	T *smt.Term
+	// Integer twin (W == 64, signed reading): I is an Int-sorted term whose value is
+	// exactly the signed value of this word, known to lie in (-2^IB, 2^IB). T is then
+	// ((_ int2bv 64) I). Comparisons and +/- between twinned words are done in linear
+	// integer arithmetic, which is what keeps the clock/timestamp reasoning cheap.
+	I  *smt.Term
+	IB uint8
 }
 
 type Bool struct {
@@ -49,6 +56,7 @@ type Seg struct {
 	Lit  string
 	T    *smt.Term // String-sorted variable/term
 	Itoa *smt.Term // BV64: decimal rendering of a signed integer
+	ItoaV BV       // the same word with its integer twin, if any
 }
 
 type Str struct {
@@ -363,4 +371,42 @@ func intWidth(t types.Type) (w int, signed bool, ok bool) {
 		return 32, false, true
 	}
 	return 0, false, false
+}
+
+// mkInt builds a twinned 64-bit word from an Int term with |value| < 2^bits.
+func (in *Interp) mkInt(i *smt.Term, bits int) BV {
+	if i.Op == "int" {
+		return mkBV(64, i.Val)
+	}
+	if bits > 63 {
+		bits = 63
+	}
+	return BV{W: 64, T: in.tb.Int2BV(64, i), I: i, IB: uint8(bits)}
+}
+
+func bitlen(v int64) int {
+	if v < 0 {
+		v = -(v + 1)
+	}
+	n := 0
+	for v > 0 {
+		n++
+		v >>= 1
+	}
+	return n + 1
+}
+
+// intTwin returns the Int term and magnitude bound of a signed 64-bit word, if it has one.
+func (in *Interp) intTwin(b BV) (*smt.Term, int, bool) {
+	if b.W != 64 {
+		return nil, 0, false
+	}
+	if b.T == nil {
+		v := b.Signed()
+		return in.tb.IntLit(v), bitlen(v), true
+	}
+	if b.I != nil {
+		return b.I, int(b.IB), true
+	}
+	return nil, 0, false
 }
